@@ -282,6 +282,10 @@ pub fn run(tier: &str) -> i32 {
             let (t, _) = styled(f, &[v], None);
             check(v.label.clone(), t, acc);
         }
+        // the end of the text: no final line break; a comment as the very last thing, without a line break after it
+        check("eof-no-newline".into(), canon.trim_end_matches('\n').to_string(), acc);
+        check("eof-comment-no-newline".into(), format!("{} # the end", canon.trim_end_matches('\n')), acc);
+        check("eof-comment-line-no-newline".into(), format!("{}# the end", canon), acc);
         // a comment at every inter-token slot
         for slot in 0..nslots {
             let (t, _) = styled(f, &[], Some(slot));
@@ -335,8 +339,34 @@ pub fn run(tier: &str) -> i32 {
             }
         }
     }, Acc::merge);
-    rep.states = res.acc.nontrivial;
-    rep.transitions = res.acc.nontrivial;
+    let mut res = res;
+    // ---- `.n` and `[n]` are one index for every n the grammar accepts, beyond 32 bits too
+    let mut ix = 0u64;
+    for nidx in ["0", "1", "2", "7", "2147483647", "2147483648", "4294967295", "4294967296", "4294967297", "9223372036854775807"] {
+        for (pre, post) in [("a", " exists"), ("a", ".b == 1"), ("a[*]", " == 1"), ("some a", " == 2")] {
+            let (tb, td) = (format!("rule r {{ {}[{}]{} }}\n", pre, nidx, post), format!("rule r {{ {}.{}{} }}\n", pre, nidx, post));
+            ix += 1;
+            res.acc.traces += 2;
+            match (parse_tree(&tb), parse_tree(&td)) {
+                (Ok(x), Ok(y)) => {
+                    if x != y {
+                        res.acc.violate("different-parse:index-forms", format!("`{}` and `{}` parse to different programs", tb.trim(), td.trim()), json!({"kind":"parse-tree","rules":tb,"canonical":td,"expected":"same parse tree","observed":"different"}));
+                    }
+                    for d in ["{\"a\":[1,2,3]}", "{\"a\":[[1],[2,1]]}", "{\"a\":[{\"b\":1},{\"b\":2}]}", "{\"a\":[]}"] {
+                        let (oa, ob) = (lib_run(&tb, d), lib_run(&td, d));
+                        res.acc.traces += 2;
+                        if oa.short() != ob.short() {
+                            res.acc.violate("different-verdict:index-forms", format!("`{}` gives {} and `{}` gives {} on {}", tb.trim(), oa.short(), td.trim(), ob.short(), d), json!({"kind":"lib2","rules":tb,"rules2":td,"data":d,"expected":oa.short(),"observed":ob.short()}));
+                        }
+                    }
+                }
+                (Err(_), Err(_)) => {}
+                (x, y) => res.acc.violate("rejected:index-forms", format!("`{}` {} but `{}` {}", tb.trim(), if x.is_ok() { "parses" } else { "is rejected" }, td.trim(), if y.is_ok() { "parses" } else { "is rejected" }), json!({"kind":"parse-tree","rules":tb,"canonical":td,"expected":"both accepted or both rejected","observed":"one rejected"})),
+            }
+        }
+    }
+    rep.states = res.acc.nontrivial + ix;
+    rep.transitions = res.acc.nontrivial + ix;
     if res.capped {
         rep.caps_hit.push(format!("wall-clock cap: {} of {} ASTs", res.done, n));
     }
